@@ -166,6 +166,8 @@ inductive POp (α : Type) where
   | popFront
   | popBack
   | clear
+  | insertAt (idx : Nat) (x : α)     -- `insert(it, x)`, `it` = `begin()` advanced `idx` times (`idx = size()`: `end()`)
+  | eraseAt (idx : Nat)              -- `erase(it)`
 
 /-- the `std::list` contract -/
 def pspecStep (s : List α) : POp α → Option (List α)
@@ -174,6 +176,13 @@ def pspecStep (s : List α) : POp α → Option (List α)
   | .popFront => if s = [] then none else some s.tail
   | .popBack => if s = [] then none else some s.dropLast
   | .clear => some []
+  | .insertAt idx x => if idx ≤ s.length then some (s.take idx ++ x :: s.drop idx) else none
+  | .eraseAt idx => if idx < s.length then some (s.eraseIdx idx) else none
+
+/-- iterator to position `idx` (`idx = size()` is `end()`: the head node, or the null iterator without head) -/
+def posAt (h : PHeap α) (l : PL) (idx : Nat) : Option Nat :=
+  let ns := nodesOf h l
+  if idx = ns.length then some (endPos l) else ns[idx]?
 
 /-- the member functions as the harness calls them -/
 def pstep (h : PHeap α) (l : PL) : POp α → Option (PHeap α × PL)
@@ -182,6 +191,8 @@ def pstep (h : PHeap α) (l : PL) : POp α → Option (PHeap α × PL)
   | .popFront => erase h l (beginPos h l)
   | .popBack => if l.head = 0 then none else erase h l (h.prevOf l.head)
   | .clear => clear h l
+  | .insertAt idx x => (posAt h l idx).bind fun p => (constructNode h l x p).map fun r => (r.1, r.2.1)
+  | .eraseAt idx => if idx < (nodesOf h l).length then (posAt h l idx).bind fun p => erase h l p else none
 
 /-- run a call sequence through the pointer code / through the contract -/
 def prun : PHeap α → PL → List (POp α) → Option (PHeap α × PL)
